@@ -951,17 +951,18 @@ class BuiltinCalls:
         flags = set(s.flags)
         if s.fixed is not None and len(s.fixed) <= 1:
             return s
-        if s.fixed is not None and len(s.fixed) <= 6 and rev is False:
-            conc = self._concrete_sort(s, key, node, state)
+        if s.fixed is not None and len(s.fixed) <= 6 and rev is not None:
+            conc = self._concrete_sort(s, key, node, state, descending=bool(rev))
             if conc is not None:
                 return conc
         elem = subst_val(s.elem, {s.kvar: inner})
         wit = s.witness
         return Seq(s.length, elem, s.kvar, None, wit, frozenset(flags), s.kind)
 
-    def _concrete_sort(self, s: Seq, key, node, state: State) -> Optional[Seq]:
-        """Stable ascending sort of a short explicit list when every comparison it needs is decided (constants, or the
-        relations assumed between the elements' terms). None when some comparison is open."""
+    def _concrete_sort(self, s: Seq, key, node, state: State, descending: bool = False) -> Optional[Seq]:
+        """Stable sort (ascending, or descending as with reverse=True: equal elements keep their order) of a short explicit list
+        when every comparison it needs is decided (constants, or the relations assumed between the elements' terms). None when
+        some comparison is open."""
         I = self.I
         items = list(s.fixed)
         if key is not None and not isinstance(key, NoneV):
@@ -1005,7 +1006,7 @@ class BuiltinCalls:
                 r = rel(keys[i], keys[o])
                 if r is None:
                     return None
-                if r == "LT":
+                if r == ("GT" if descending else "LT"):
                     pos = j
                     break
             # every element after pos must be decided too (stability needs the first strictly greater one)
